@@ -60,6 +60,17 @@ def handler : Handler := fun op args =>
   | "decision" => Wire.run (do
       let count ← optOf nat; let loops ← int; let cache ← pCache
       pure s!"ok {fmtBool (cachedDecision count cache)} {fmtBool (cachedDecision count (drawCache loops cache))}") args
+  | "draw" => Wire.run (do
+      -- `<n> <loops> <cache> <m>`: per-frame `_render_` counts of draw() interrupted after `m` further frames
+      let n ← nat; let loops ← int; let cache ← pCache; let m ← nat
+      let i : Init := { count := some n, loops, cache, padding := .exact 0 0 0 0 0, args := none,
+                        size := ⟨2, 1⟩, dur := .ms 7, rFrame := 0, term := ⟨80, 30⟩ }
+      pure (match init (O := TOut) (Draw.initOf i) (0 : Nat) with
+        | .error e => "err " ++ fmtErr e
+        | .ok s =>
+          let r := C08.run (testR ⟨some n, 0, none, none⟩) s (Draw.history m)
+          "ok " ++ String.intercalate " " ((List.range n).map (fun (k : Nat) => toString (Draw.renderCount r.1 (Int.ofNat k)))) ++
+            s!" # {r.1.calls.length} {fmtBool r.1.cached}")) args
   | "idecision" => Wire.run (do
       let n ← nat; let rep ← int; let cache ← pCache
       pure s!"ok {fmtBool (icachedDecision n rep cache)}") args
